@@ -86,6 +86,19 @@ pub fn cmd_meta(a: &Args) {
         let mut w_att = spec.att.clone();
         w_att.extend(without_st);
         let w_af = afio::build_compact(&AfSpec { n: n + extra, att: w_att, tag: "union_nost".into() });
+        // padding with sinks: 35-70 new arguments that are only attacked (by arguments of the instance), inside the same components.
+        // By directionality the statuses of the original arguments are unchanged for GR, CO, PR, ID, ST -- while the components grow
+        // beyond 32 / 64 arguments (table sizes, bit sets, thresholds of the implementation)
+        let k = if n >= 2 && n <= 16 { rng.gen_range(35..=70) } else { 0 };
+        let mut s_att = spec.att.clone();
+        for j in 1..=k {
+            for _ in 0..rng.gen_range(1..=2) {
+                s_att.push((rng.gen_range(1..=n), n + j));
+            }
+        }
+        s_att.sort();
+        s_att.dedup();
+        let s_af = afio::build_compact(&AfSpec { n: n + k, att: s_att, tag: "pad_sinks".into() });
         let mut per_sem: Vec<Value> = vec![];
         for sem in &sems {
             for kind in ["DC", "DS"] {
@@ -93,6 +106,10 @@ pub fn cmd_meta(a: &Args) {
                 for (rel, af2, s2) in [("perm", &p_af, &p_sample), ("attdup", &d_af, &sample), ("union_st", &u_af, &sample), ("union_nost", &w_af, &sample)] {
                     let o = statuses(af2, sem, kind, s2);
                     lines.push(json!({"ev": "pair", "rel": rel, "sem": sem, "kind": kind, "args": sample, "base": b, "other": o}).to_string());
+                }
+                if k > 0 && ["GR", "CO", "PR", "ID", "ST"].contains(sem) {
+                    let o = statuses(&s_af, sem, kind, &sample);
+                    lines.push(json!({"ev": "pair", "rel": "pad_sinks", "sem": sem, "kind": kind, "args": sample, "base": b, "other": o}).to_string());
                 }
                 per_sem.push(json!({"sem": sem, "kind": kind, "st": b}));
             }
